@@ -104,9 +104,63 @@ def gen_map_sites(ctx):
     return sites
 
 
+def naming_tables():
+    """reserved words and escaping rules of the three code generators, parsed out of internal/*/common/common.go"""
+    out = {}
+    for lang in ("cpp", "python", "matlab"):
+        src = open(os.path.join(REPO, "tooling/internal/%s/common/common.go" % lang)).read()
+        m = re.search(r"var (reservedNames|isReservedName) = map\[string\]\w+\{(.*?)\n\}", src, re.S)
+        if not m:
+            raise RuntimeError("gentables: cannot find the reserved words of " + lang)
+        words = re.findall(r'^\s*"([^"]+)":', m.group(2), re.M)
+        var = m.group(1)
+        rules = {}
+        for kind, fn in (("field", "FieldIdentifierName"), ("computed", "ComputedFieldIdentifierName"),
+                         ("enum_value", "EnumValueIdentifierName"), ("type", "TypeIdentifierName")):
+            fm = re.search(r"func %s\(name string\) string \{\n(.*?)\n\}\n" % fn, src, re.S)
+            if not fm:
+                raise RuntimeError("gentables: cannot find %s of %s" % (fn, lang))
+            body = fm.group(1)
+            cm = re.search(r"^\t(\w+) := (.*)$", body, re.M)
+            cased_var, cased_expr = (cm.group(1), cm.group(2).strip()) if cm else ("name", "name")
+            chk = re.search(r"%s\[(\w+)\]" % var, body)
+            sm_ = re.search(r'Sprintf\("%s([^"]*)", (\w+)\)\s*$|return (\w+) \+ "([^"]*)"\s*$', body.strip())
+            if not chk or not sm_:
+                raise RuntimeError("gentables: %s of %s has an unexpected shape" % (fn, lang))
+            suffix = sm_.group(1) if sm_.group(1) is not None else sm_.group(4)
+            ret_var = sm_.group(2) or sm_.group(3)
+            rules[kind] = {"casing": cased_expr, "checked": "cased" if chk.group(1) == cased_var and cased_var != "name" else
+                           ("name" if cased_var != "name" else "cased"), "suffix": suffix, "returns_cased": ret_var == cased_var}
+        out[lang] = {"reserved": words, "rules": rules}
+    return out
+
+
+def gen_naming():
+    def cs(s):
+        return '"%s"' % s
+    t = naming_tables()
+    L = ["(* GENERATED on every run from tooling/internal/{cpp,python,matlab}/common/common.go by harness/lib/gentables.py. Do not edit. *)",
+         "From Coq Require Import List String.", "Import ListNotations.", "Open Scope string_scope.", ""]
+    for lang, d in t.items():
+        L.append("Definition %s_reserved : list string :=\n  [%s]." % (lang, "; ".join(cs(w) for w in d["reserved"])))
+        for kind, r in d["rules"].items():
+            L.append("(* %s %s: casing %s, reserved check on the %s *)" % (lang, kind, r["casing"], r["checked"]))
+            L.append("Definition %s_%s_suffix : string := %s." % (lang, kind, cs(r["suffix"])))
+            L.append("Definition %s_%s_checks_cased : bool := %s." % (lang, kind, "true" if r["checked"] == "cased" else "false"))
+        L.append("")
+    text = "\n".join(L)
+    path = os.path.join(COQ, "Gen", "Naming.v")
+    old = open(path).read() if os.path.exists(path) else None
+    if old != text:
+        with open(path, "w") as f:
+            f.write(text)
+    return t
+
+
 def regenerate(ctx):
     gen_phases()
     gen_map_sites(ctx)
+    gen_naming()
     t = json.loads(ctx.hook_call(["tables"]))
     L = ["(* GENERATED on every run from /repo by harness/lib/gentables.py (hook `yardl-verif tables`). Do not edit. *)",
          "From Coq Require Import NArith.", "From YV Require Import Model.Binary.", "Open Scope N_scope.", "",
